@@ -832,15 +832,6 @@ func (interp *Interpreter) cfg(root *node, sc *scope, importPath, pkgName string
 					if src.typ.untyped && !dest.typ.untyped {
 						src.typ = dest.typ
 					}
-				case src.action == aRecv && !isCommRecvAssign(n):
-					// Assign by reading from a receiving channel.
-					if dest.typ.id() != src.typ.id() {
-						// Skip optimization if the received type doesn't match the assigned one (an interface).
-						break
-					}
-					n.gen = nop
-					src.findex = dest.findex // Set recv address to LHS.
-					dest.typ = src.typ
 				case src.action == aCompositeLit:
 					if dest.typ.cat == valueT && dest.typ.rtype.Kind() == reflect.Interface {
 						// Skip optimisation for assigned interface.
@@ -2429,7 +2420,9 @@ func (interp *Interpreter) cfg(root *node, sc *scope, importPath, pkgName string
 			case n.rval.IsValid():
 				n.gen = nop
 				n.findex = notInFrame
-			case n.anc.kind == assignStmt && n.anc.action == aAssign && n.anc.nright == 1 && !isCommRecvAssign(n.anc):
+			case n.anc.kind == assignStmt && n.anc.action == aAssign && n.anc.nright == 1 && n.action != aRecv:
+				// The value of a receive operation is stored in its own frame location, then assigned
+				// to the destination, which may be an element, a field or a variable whose address is taken.
 				dest := n.anc.child[childPos(n)-n.anc.nright]
 				if dest.typ != nil && isInterface(dest.typ) && !isInterface(n.typ) {
 					// Keep the type of the operand and store the result in its own frame
@@ -2440,7 +2433,7 @@ func (interp *Interpreter) cfg(root *node, sc *scope, importPath, pkgName string
 				n.typ = dest.typ
 				n.findex = dest.findex
 				n.level = dest.level
-			case n.anc.kind == returnStmt:
+			case n.anc.kind == returnStmt && n.action != aRecv:
 				pos := childPos(n)
 				if isInterface(sc.def.typ.ret[pos]) && !isInterface(n.typ) {
 					// Same as above: let the return statement convert to the interface type.
